@@ -5,6 +5,7 @@ package actor
 import (
 	"context"
 	"errors"
+	"fmt"
 	"os"
 	"sync"
 	"syscall"
@@ -35,6 +36,11 @@ type c35Scenario struct {
 	Async      bool         `json:"async"`
 	DeliverErr bool         `json:"deliver_err"`
 	ViaSend    bool         `json:"via_send"` // go through PID.SendSync / PID.SendAsync (actor/pid.go)
+	// DeliverResult: "" (success) or the error kind the delivery callback returns (connrefused | sendfail |
+	// nettimeout | reqtimeout | terminal); FlipDuringDeliver: the target's endpoint gets marked as
+	// relocating (a NodeLeft lands) while the delivery callback runs
+	DeliverResult     string `json:"deliver_result"`
+	FlipDuringDeliver bool   `json:"flip_during_deliver"`
 }
 
 type c35Seen struct {
@@ -66,6 +72,7 @@ type verifC35System struct {
 	noFlight  bool
 	handoffs  int
 	inCluster bool
+	flipped   bool
 }
 
 type verifC35NetTimeout struct{}
@@ -132,7 +139,13 @@ func (f *verifC35System) ActorOf(context.Context, string) (*PID, error) {
 }
 
 func (f *verifC35System) isEndpointRelocating(addr *address.Address) bool {
-	return addr != nil && addr.Host() == verifC35DeadHost
+	if addr == nil {
+		return false
+	}
+	f.mu.Lock()
+	flipped := f.flipped
+	f.mu.Unlock()
+	return addr.Host() == verifC35DeadHost || (flipped && addr.Host() == verifC35LiveHost)
 }
 
 func (f *verifC35System) relocationInFlight() bool {
@@ -158,6 +171,16 @@ func c35Run(sc c35Scenario) c35Result {
 		defer cancel()
 	}
 	deliverErr := errors.New("delivery failed")
+	switch sc.DeliverResult {
+	case "connrefused":
+		deliverErr = fmt.Errorf("dial: %w", syscall.ECONNREFUSED)
+	case "sendfail":
+		deliverErr = fmt.Errorf("tell: %w", gerrors.ErrRemoteSendFailure)
+	case "nettimeout":
+		deliverErr = verifC35NetTimeout{}
+	case "reqtimeout":
+		deliverErr = fmt.Errorf("ask: %w", gerrors.ErrRequestTimeout)
+	}
 	var dmu sync.Mutex
 	deliver := func(dctx context.Context, to *PID) (any, error) {
 		dmu.Lock()
@@ -167,7 +190,12 @@ func c35Run(sc c35Scenario) c35Result {
 		if dl, ok := dctx.Deadline(); ok {
 			res.HasDeadline, res.DeadlineNs = true, dl.Sub(sys.t0).Nanoseconds()
 		}
-		if sc.DeliverErr {
+		if sc.FlipDuringDeliver {
+			sys.mu.Lock()
+			sys.flipped = true
+			sys.mu.Unlock()
+		}
+		if sc.DeliverErr || sc.DeliverResult != "" {
 			return nil, deliverErr
 		}
 		return "ok", nil
